@@ -111,6 +111,11 @@ func C16(e *simkern.Env) {
 							um = um.Add(key, val)
 							want[key] = val
 						}
+						// sometimes the request repeats the framework's own token keys
+						// (a proxy appending tokens to a batch that already carries
+						// them): ContBody puts the genuine ones after the user keys, so
+						// the user-supplied copies come first or the genuine ones do
+						dupTokens := tp.Bool(1, 5)
 						before := hx.Rec.Get(nonce)
 						inst := cl.Inst[tp.Draw(nInst)]
 						if k == cancelAt {
@@ -145,7 +150,12 @@ func C16(e *simkern.Env) {
 							}
 							break
 						}
-						ct := httpw.Decode(httpw.Post(inst, "/"+m.name+"/exchange", httpw.ContBody(cursor, call, false, []int64{int64(k + 1)}, false, um), httpw.Ident{}, nil))
+						body := httpw.ContBody(cursor, call, false, []int64{int64(k + 1)}, false, um)
+						if dupTokens {
+							body = httpw.ContBodyDup(cursor, call, false, []int64{int64(k + 1)}, false, um)
+							sim.Fault("duplicate-token-keys")
+						}
+						ct := httpw.Decode(httpw.Post(inst, "/"+m.name+"/exchange", body, httpw.Ident{}, nil))
 						after := hx.Rec.Get(nonce)
 						turnsJudged++
 						var st *hx.Step
@@ -237,6 +247,6 @@ func init() {
 		Real:  []string{"vgirpc.HttpServer.handleStreamExchange / handleExchangeCall / handleStreamCancel, stripFrameworkTickMetadata, token re-mint"},
 		Stub:  []string{"HTTP transport", "scripted exchange states recording what they saw"},
 		Quick: 700, Thorough: 60000,
-		Warm: warmHTTP, FaultKinds: []string{"client-cancel"},
+		Warm: warmHTTP, FaultKinds: []string{"client-cancel", "duplicate-token-keys"},
 	}
 }
